@@ -51,13 +51,15 @@ def plan(tier):
     t.append({'kind': 'zero'})
     t.append({'kind': 'big'})
     t.append({'kind': 'm3'})
+    for lo in range(0, len(rep3_pool()), 6):
+        t.append({'kind': 'rep3', 'lo': lo, 'hi': lo + 6})
     t.append({'kind': 'mismatch'})
     return t
 
 
 def describe(tier):
     return {
-        'rule': 'ordered pairs (left, right) of circuit variants = circuit of F(n,<=k,{NOT,AND,OR,XOR,GT,constants}) x output list '
+        'rule': 'rep3: all ordered pairs of 81 operands built from three-operand AND/OR/XOR gates over every operand triple (operands read twice, inner NOT gate); ordered pairs (left, right) of circuit variants = circuit of F(n,<=k,{NOT,AND,OR,XOR,GT,constants}) x output list '
         '(every sequence of 1..2 nodes incl. inputs and repeats); both circuits share labels (also with the right circuit declaring the same input labels in reversed order); build_miter with default and custom '
         'block names; the miter is evaluated on all 2^n inputs through Circuit.evaluate and the reference evaluator; '
         'is_circuit_satisfiable(miter) with the shim solver; operands re-abstracted; every mismatched-shape pair from a small '
@@ -282,6 +284,28 @@ def run_big(acc):
     acc.sample({'big': {'inputs': 257, 'outputs': 2}})
 
 
+def rep3_pool():
+    """operands with three-operand gates that read one operand twice (every operand triple over two inputs, and
+    over two inputs plus an inner NOT gate)"""
+    pool = []
+    for t in ('AND', 'OR', 'XOR'):
+        for tri in itertools.product(range(2), repeat=3):
+            pool.append((2, ((t, tri),), (2,)))
+        for tri in itertools.product(range(3), repeat=3):
+            if 2 in tri:
+                pool.append((2, (('NOT', (1,)), (t, tri)), (3,)))
+    return pool
+
+
+def run_rep3(acc, lo, hi):
+    pool = rep3_pool()
+    for L in pool[lo:hi]:
+        for R in pool:
+            check_pair(L, R, acc)
+            if L is pool[lo]:
+                check_pair(L, R, acc, None, True)
+
+
 def run_task(task, acc):
     if task['kind'] == 'zero':
         return run_zero(acc)
@@ -291,6 +315,8 @@ def run_task(task, acc):
         return run_pairs(task, acc)
     if task['kind'] == 'm3':
         return run_m3(acc)
+    if task['kind'] == 'rep3':
+        return run_rep3(acc, task['lo'], task['hi'])
     return run_mismatch(acc)
 
 
